@@ -198,6 +198,28 @@ func (r *c18Run) multiproof(txns []types.V2Transaction, tag string, replay any) 
 		sl, _ := c18Leaves(stripped, false)
 		r.ops = append(r.ops, "mp-expand "+sl+" "+accWHashes(mp))
 		r.outs = append(r.outs, "ok "+c18Proofs(stripped))
+		// the value-tree model: decode the plain encoding, traverse, re-encode in multiproof form
+		var plain bytes.Buffer
+		pl := types.NewEncoder(&plain)
+		types.EncodeSlice(pl, orig)
+		pl.Flush()
+		noInputs := true
+		for _, t := range orig {
+			if len(t.SiacoinInputs)+len(t.SiafundInputs) > 0 {
+				noInputs = false // the codec model has no spend-policy codec in its environment
+			}
+		}
+		if plain.Len() <= 30000 && noInputs {
+			var tl []string
+			types.VerifForEachElementLeaf(orig, func(l types.VerifElementLeaf) {
+				tl = append(tl, fmt.Sprintf("%d:%d", l.SE.LeafIndex, len(l.SE.MerkleProof)))
+			})
+			r.ops = append(r.ops, fmt.Sprintf("mp-traverse %x", plain.Bytes()))
+			r.outs = append(r.outs, accWList(tl))
+			r.ops = append(r.ops, fmt.Sprintf("mp-encode %x", plain.Bytes()))
+			r.outs = append(r.outs, fmt.Sprintf("%x", enc))
+			res.Count("multiproof:value-tree-model-cases")
+		}
 	}
 	return ok
 }
